@@ -227,23 +227,33 @@ def PrimTy.impl : PrimTy → ShiftImpl
   | .u8 | .u16 => .cast
   | _ => .tryFrom
 
+/-- the integer denoted by the bit pattern `p` of a value of type `t` (not executed by any impl;
+    used to state theorems) -/
+def PrimTy.val (t : PrimTy) (p : Nat) : Int := if t.signed then toInt (B t.bits) p else (p : Int)
+
 /-- `rhs as ExpType` -/
 def asExp (t : PrimTy) (p : Nat) : Nat := PInt.cast t.bits t.signed 32 p
 /-- core's `<u32 as TryFrom<$rhs>>::try_from(rhs)`: `Err` iff the value is negative or `> u32::MAX` -/
 def tryFromPrim (t : PrimTy) (p : Nat) : Option Nat :=
   if PInt.isNeg t.pty p then none else if p < B 32 then some p else none
 
-/-- `impl Shl<$rhs> for $Struct<N>` for the primitive type `t` -/
-def shl_vv (T : Ty) (dbg : Bool) (t : PrimTy) (a : List Nat) (p : Nat) : Outcome (List Nat) :=
+/-- the body shared by `impl Shl<$rhs>` / `impl Shr<$rhs>` (the macros take `$method`): `method` is
+    the inherent `self.shl` / `self.shr` already applied to `self` -/
+def shiftPrim (dbg : Bool) (t : PrimTy) (method : Nat → Outcome (List Nat)) (p : Nat) :
+    Outcome (List Nat) :=
   match t.impl with
-  | .direct => T.shl dbg a p
-  | .cast => T.shl dbg a (asExp t p)
+  | .direct => method p
+  | .cast => method (asExp t p)
   | .tryFrom =>
     if dbg then
       match tryFromPrim t p with
-      | some r => T.shl dbg a r
+      | some r => method r
       | none => .panic
-    else T.shl dbg a (asExp t p)
+    else method (asExp t p)
+
+/-- `impl Shl<$rhs> for $Struct<N>` for the primitive type `t` -/
+def shl_vv (T : Ty) (dbg : Bool) (t : PrimTy) (a : List Nat) (p : Nat) : Outcome (List Nat) :=
+  shiftPrim dbg t (T.shl dbg a) p
 /-- `op_ref_impl!(Shl<$rhs> …)` (through `shift_assign_ops!` → `assign_op_impl!`):
     `Shl::<$rhs>::shl(self, *rhs)` -/
 def shl_vr (T : Ty) (dbg : Bool) (t : PrimTy) (a : List Nat) (p : Nat) := shl_vv T dbg t a p
@@ -258,15 +268,7 @@ def shlAssignRef (T : Ty) (dbg : Bool) (t : PrimTy) (a : List Nat) (p : Nat) := 
 
 /-- `impl Shr<$rhs> for $Struct<N>` for the primitive type `t` -/
 def shr_vv (T : Ty) (dbg : Bool) (t : PrimTy) (a : List Nat) (p : Nat) : Outcome (List Nat) :=
-  match t.impl with
-  | .direct => T.shr dbg a p
-  | .cast => T.shr dbg a (asExp t p)
-  | .tryFrom =>
-    if dbg then
-      match tryFromPrim t p with
-      | some r => T.shr dbg a r
-      | none => .panic
-    else T.shr dbg a (asExp t p)
+  shiftPrim dbg t (T.shr dbg a) p
 def shr_vr (T : Ty) (dbg : Bool) (t : PrimTy) (a : List Nat) (p : Nat) := shr_vv T dbg t a p
 def shr_rr (T : Ty) (dbg : Bool) (t : PrimTy) (a : List Nat) (p : Nat) := shr_vv T dbg t a p
 def shr_rv (T : Ty) (dbg : Bool) (t : PrimTy) (a : List Nat) (p : Nat) := shr_vv T dbg t a p
@@ -276,12 +278,17 @@ def shrAssignRef (T : Ty) (dbg : Bool) (t : PrimTy) (a : List Nat) (p : Nat) := 
 /-! ## Shl / Shr with an amount of type `BUint<M>` (`ks = false`) / `BInt<M>` (`ks = true`)
     (`shift_self_impl!`: the `try_from` + `result_expect!` is NOT `cfg`-gated) -/
 
-/-- `impl Shl<$rhs<M>> for $Struct<N>`:
-    `let rhs: ExpType = result_expect!(ExpType::try_from(rhs), …); self.shl(rhs)` -/
-def shlB_vv (T : Ty) (dbg : Bool) (ks : Bool) (a k : List Nat) : Outcome (List Nat) :=
-  match Bnum.tryToPrim T.w ks k ⟨32, false⟩ with
-  | .ok (some r) => T.shl dbg a r
+/-- the body shared by `impl Shl<$rhs<M>>` / `impl Shr<$rhs<M>>`:
+    `let rhs: ExpType = result_expect!(ExpType::try_from(rhs), …); self.$method(rhs)` -/
+def shiftBnum (w : Nat) (ks : Bool) (method : Nat → Outcome (List Nat)) (k : List Nat) :
+    Outcome (List Nat) :=
+  match Bnum.tryToPrim w ks k ⟨32, false⟩ with
+  | .ok (some r) => method r
   | _ => .panic
+
+/-- `impl Shl<$rhs<M>> for $Struct<N>` -/
+def shlB_vv (T : Ty) (dbg : Bool) (ks : Bool) (a k : List Nat) : Outcome (List Nat) :=
+  shiftBnum T.w ks (T.shl dbg a) k
 /-- `Shl::<$rhs<M>>::shl(self, *rhs)` -/
 def shlB_vr (T : Ty) (dbg : Bool) (ks : Bool) (a k : List Nat) := shlB_vv T dbg ks a k
 /-- `Shl::<$rhs<M>>::shl(*self, *rhs)` -/
@@ -293,10 +300,9 @@ def shlBAssign (T : Ty) (dbg : Bool) (ks : Bool) (a k : List Nat) := shlB_vv T d
 /-- `(*self).shl_assign(*rhs)` -/
 def shlBAssignRef (T : Ty) (dbg : Bool) (ks : Bool) (a k : List Nat) := shlBAssign T dbg ks a k
 
+/-- `impl Shr<$rhs<M>> for $Struct<N>` -/
 def shrB_vv (T : Ty) (dbg : Bool) (ks : Bool) (a k : List Nat) : Outcome (List Nat) :=
-  match Bnum.tryToPrim T.w ks k ⟨32, false⟩ with
-  | .ok (some r) => T.shr dbg a r
-  | _ => .panic
+  shiftBnum T.w ks (T.shr dbg a) k
 def shrB_vr (T : Ty) (dbg : Bool) (ks : Bool) (a k : List Nat) := shrB_vv T dbg ks a k
 def shrB_rr (T : Ty) (dbg : Bool) (ks : Bool) (a k : List Nat) := shrB_vv T dbg ks a k
 def shrB_rv (T : Ty) (dbg : Bool) (ks : Bool) (a k : List Nat) := shrB_vv T dbg ks a k
